@@ -49,3 +49,8 @@ Theorem C19_encode_injective : forall (w' : nat) (n1 n2 : Z),
   in_range w' n1 -> in_range w' n2 -> encode w' n1 = encode w' n2 -> n1 = n2.
 Proof. exact encode_injective. Qed.
 Print Assumptions C19_encode_injective.
+
+(* the narrowest field: one column holds 0-9, A-Z (10-35), a-z (36-61) and no negative number *)
+Theorem C19_range_width1 : forall n, in_range 0 n <-> 0 <= n <= 61.
+Proof. exact range_width1. Qed.
+Print Assumptions C19_range_width1.
